@@ -74,6 +74,8 @@ type episode struct {
 	cbs     map[uint32]*wcoin
 	redeems map[string]*wcoin // script hex -> template carrying redeem info
 	dead    bool
+	rich    []*wcoin // injected coins of out-of-supply values (extra.go)
+	idxOff  int      // nodes of the real block index the model has never seen (stored side-branch blocks, reorg.go)
 	nblocks int
 	special []*scoin // coins with height-gated scripts (reorg.go)
 }
@@ -91,7 +93,8 @@ func newEpisode(r *vlib.Run, o *vlib.Oracle, g *vlib.Rng, opts epOpts) *episode 
 			k.Ch.Unspent.HashMap[i] = make(map[utxo.UtxoKeyType]*[]byte)
 		}
 	}
-	if rep := o.MustAsk("reset"); rep != "ok" {
+	gen, _ := k.Tip()
+	if rep := o.MustAsk("reset " + gen); rep != "ok" {
 		fmt.Fprintln(os.Stderr, "oracle reset:", rep)
 		os.Exit(3)
 	}
@@ -197,6 +200,12 @@ func (e *episode) judge(kind string, raw []byte, fullDump bool) *outcome {
 	}
 	oc := &outcome{}
 	tip0, h0 := e.k.Tip()
+	if e.inIndex(c.hash) {
+		// theorem refuse_unchanged asks for a hash that is not in the index yet (PreCheckBlock's "already in" test, C05)
+		r.Hit("candidate-already-in-index:" + kind)
+		return nil
+	}
+	nidx0 := e.indexLen()
 	var dump0 []string
 	if fullDump {
 		dump0 = chainkit.UtxoDump(e.k.Ch.Unspent)
@@ -232,7 +241,7 @@ func (e *episode) judge(kind string, raw []byte, fullDump bool) *outcome {
 	e.nblocks++
 	r.Eval("block:"+kind, vlib.ShortHash(raw))
 	r.Hit("real:" + errClass(oc.real))
-	if strings.HasPrefix(kind, "sigops-") || strings.HasPrefix(kind, "bad-input") || kind == "valid-many-inputs" {
+	if strings.HasPrefix(kind, "sigops-") || strings.HasPrefix(kind, "bad-input") || kind == "valid-many-inputs" || strings.HasPrefix(kind, "rich-") || strings.HasPrefix(kind, "cb-script-") {
 		r.Hit("verdict:" + kind + "=" + errClass(oc.real))
 	}
 	r.Hit("ref:" + oc.ref)
@@ -268,6 +277,12 @@ func (e *episode) judge(kind string, raw []byte, fullDump bool) *outcome {
 			}
 		}
 	}
+	// a panic inside CheckBlock / AcceptBlock (recovered by chainkit.Submit) is never a legitimate way to refuse a block:
+	// the node would crash, or — recovered as here — stay with a half-applied block
+	if res.Panic != "" {
+		r.PropFail("accept-panic", fmt.Sprintf("kind %q: Chain.CheckBlock+AcceptBlock panicked: %s (reference: %s)", kind, res.Panic, oc.ref), doc(oc))
+		bad = true
+	}
 	// valid block refused: not demanded by the property's "only if", but the model must agree with the code
 	if !oc.accepted && gerr == "" {
 		r.TieFail("valid-refused:"+errClass(oc.real), fmt.Sprintf("kind %q: valid per reference, refused by the real code (%s)", kind, oc.real), doc(oc))
@@ -279,6 +294,32 @@ func (e *episode) judge(kind string, raw []byte, fullDump bool) *outcome {
 		bad = true
 	} else {
 		r.TieOK()
+	}
+	// tie: the REASON of a refusal (model Err constructor vs the real error message)
+	if !mok && !oc.accepted && res.Panic == "" {
+		mk, rk := strings.TrimPrefix(oc.model, "err:GocoinV.Connect.Err."), realErrKind(oc.real)
+		switch {
+		case mk == rk:
+			r.TieOK()
+			r.Hit("errclass-agree:" + mk)
+		case contextFree[mk] && contextFree[rk] && e.contextFreeFailures(c) >= 2:
+			// CheckTransactions judges every transaction in a goroutine of its own and reports whichever error arrives first
+			r.Hit("errclass-race-ambiguous:" + mk + "/" + rk)
+		default:
+			r.TieFail("model-errclass:"+mk+"/"+rk, fmt.Sprintf("kind %q: both refuse, for different reasons: real=%s (%s) model=%s", kind, oc.real, rk, oc.model), doc(oc))
+			bad = true
+		}
+	}
+	// tie: tip and size of the block index after acceptBlock (the model function theorem refuse_unchanged is about)
+	if ms := e.o.MustAsk("state"); ms != fmt.Sprintf("%s %d", tip1, e.indexLen()-e.idxOff) {
+		r.TieFail("model-state:"+kind, fmt.Sprintf("kind %q (%s): real tip/index size %s %d (of which %d side-branch nodes), model %s", kind, oc.real, tip1, e.indexLen(), e.idxOff, ms), doc(oc))
+		bad = true
+	} else {
+		r.TieOK()
+	}
+	if !oc.accepted && e.indexLen() != nidx0 {
+		r.PropFail("refused-index-changed", fmt.Sprintf("kind %q refused (%s) but the block index went from %d to %d nodes", kind, oc.real, nidx0, e.indexLen()), doc(oc))
+		bad = true
 	}
 	if mok && oc.accepted {
 		so := e.k.Ch.LastBlock().SigopsCost
@@ -349,6 +390,8 @@ func errClass(s string) string {
 	switch {
 	case s == "ok":
 		return "ok"
+	case strings.Contains(s, "accept: vout too big"):
+		return "inblock-vout-too-big"
 	case strings.Contains(s, "RPC_Result:"):
 		return s[strings.Index(s, "RPC_Result:")+11:]
 	}
@@ -437,8 +480,13 @@ func main() {
 	r.Assume = []string{
 		"script verification (lib/script, property C01) is an oracle Bool per input in the Lean model and spec; the harness computes it with script.VerifyTxScript against the coin the sequential semantics names",
 		"wire decoding (C09), header/merkle/commitment rules (C05) and the record serialisation (C10) are outside this check: candidates are well-formed blocks built by chainkit",
+		"bl.Trusted is false for every candidate (btc.NewBlock's default; the trusted path of commitTxs / PostCheckBlock and chain.TrustedTxChecker are not exercised: asserted nil at start) and utxo.UTXO_PURGE_UNSPENDABLE is false (asserted at start)",
 		"hash-prefix injectivity: no two different txids among the block's transactions and the records of the UTXO set share their first 8 bytes (a 2^32-work birthday collision on SHA-256d; UnspentDB.commit would file the new record over the old one — observed by keyClashProbe at the record layer, evidence field hash_prefix_injectivity_probe; Lean: connect_sound_needs_prefix_injectivity); only INPUTS naming a colliding txid are generated",
 		"reference semantics of Bitcoin written from memory of Bitcoin Core (DESIGN §3.7)",
+	}
+	if chain.TrustedTxChecker != nil || utxo.UTXO_PURGE_UNSPENDABLE {
+		fmt.Fprintln(os.Stderr, "c04: chain.TrustedTxChecker is set or utxo.UTXO_PURGE_UNSPENDABLE is true: the modelled configuration is not the one running")
+		os.Exit(3)
 	}
 	if r.Replay != "" {
 		runReplay(r, o)
@@ -446,6 +494,7 @@ func main() {
 		t0 := time.Now()
 		if only := os.Getenv("VERIF_C04_ONLY"); only != "episodes" && only != "reorg" {
 			directStreams(r, o)
+			chkTxStream(r, o) // extra.go: Tx.CheckTransaction / Tx.IsFinal against the oracle ops chktx / final
 		}
 		keyClashProbe(r) // keyclash.go: records what UnspentDB.commit does on an 8-byte key clash (assumption, not a judge)
 		r.Extra["direct_streams_s"] = time.Since(t0).Seconds()
@@ -480,6 +529,7 @@ func runReplay(r *vlib.Run, o *vlib.Oracle) {
 	if json.Unmarshal(b, &w) != nil || w.Replay.Candidate == "" {
 		fmt.Fprintln(os.Stderr, "replay file has no C04 block case (proof-level violation?)")
 		directStreams(r, o)
+		chkTxStream(r, o)
 		runEpisodes(r, o)
 		runReorgEpisodes(r, o)
 		return
